@@ -45,6 +45,8 @@ def run(ctx):
         common.index_template(ctx, q, col, tot)
     common.rlencode_template(ctx)
     common.validator_predicates(ctx)
+    from .C13 import validated_stream
+    validated_stream(ctx, ctx.fa('cooler.create._create.create'))
     common.producers_sorted(ctx)
     layout.layout_agreement(ctx)
     common.get_binsize_all_bins(ctx)
